@@ -37,7 +37,8 @@ for p in "$@"; do
   if grep -q "== $p exit=1" "$W/check.$p.log" && ! grep -q "violation lines: 0)" "$W/check.$p.log"; then caught="$caught $p"; else missed="$missed $p"; fi
   grep -E "^(VIOLATION|  signature|== )" "$W/check.$p.log" | head -5
 done
-sigs=$(cat "$W"/check.*.log 2>/dev/null | grep "  signature:" | head -6 | sed 's/  signature: //' | tr '\n' ';' | sed 's/"/\\"/g')
+sigs=""
+sigs=$(cat "$W"/check.*.log 2>/dev/null | grep "  signature:" | head -6 | sed 's/  signature: //' | tr '\n' ';' | tr -d '"' || true)
 python3 - "$out" "$id" "$repotests" "$d_clean" "$d_mut" "$changed" "$caught" "$missed" "$sigs" "$runcmd" <<'PY'
 import json,sys,os
 out,id_,rt,dc,dm,ch,caught,missed,sigs,runcmd=sys.argv[1:11]
